@@ -98,6 +98,9 @@ func c10RunOne(t *testing.T, sc c10Scenario, prefix []int, expect []gate.PointRe
 			x.KeyFn = func() string {
 				var sb strings.Builder
 				sb.WriteString(fp.stateKey())
+				// every field of the runner, known to this harness or not (see gate.DeepKey)
+				sb.WriteString("|deep:")
+				sb.WriteString(gate.DeepKeyFields(cr, "proc"))
 				var errStr string
 				if e := cr.err.Load(); e != nil && *e != nil {
 					errStr = (*e).Error()
